@@ -34,15 +34,19 @@ MANIFEST = dict(
          "table accepted by a decidable soundness predicate (C04_start_atomic; the table is regenerated from player.c on every "
          "run and evaluated), that load_module with an arbitrary loader result is atomic (C04_load_atomic), that over every "
          "open;reopen*;close sequence the caller's FILE is never closed, an owned FILE and the close callback exactly once "
-         "(C04_stream_ownership), and that the temp-file protocol leaves no file, descriptor or block behind (C04_tempfile). "
+         "(C04_stream_ownership, by induction over the reopen list), that the temp-file protocol leaves no file, descriptor or block "
+         "behind for every sound table of make_temp_file (C04_tempfile), and that the context after a failed load equals the fresh "
+         "context (C04_reusable). Counterexample theorems record the pinned/intermediate unwinding tables that really leaked. "
          "The model is tied to the C by the generated tables and by a differential correspondence of allocation ledgers; a "
          "fault-injection oracle (every allocation index, truncations, read faults, helper outcomes) evaluates the property on "
          "the real code and yields replayable failing inputs.",
     note="Trusted: Lean kernel (propext/Classical.choice/Quot.sound only), the hand-written model XmpModel/Resource.lean, "
          "tools/gen_c04.py (regular expressions over player.c/tempfile.c), harness and differ. Partial: the ~110 format loaders "
          "and the depackers are NOT modelled - their local temporaries (hundreds of allocation sites) are reached only by the "
-         "fault enumeration (quick: ~25 small modules x every allocation index; thorough: every corpus file < 64 KiB x 4 entry "
-         "points). Model assumptions checked dynamically by the harness: count fields never exceed the allocated table length "
+         "fault enumeration (quick: ~30 small modules x 2 entry points x every allocation index; thorough: every corpus file "
+         "<= 64 KiB x 4 entry points x every index, larger files ~120 indices each). Reusability after a failed START is not a "
+         "theorem (only state/ledger restoration is); it is checked dynamically by the PCM digest of a normal start+play on the same "
+         "context. Model assumptions checked dynamically by the harness: count fields never exceed the allocated table length "
          "when xmp_release_module runs, no block is referenced twice. fclose()/close_func failures are not modelled. "
          "Correspondence is sampled (differential), not exhaustive.",
     technique="Lean 4 proofs by multiset counting over a heap ledger + abstract interpretation of generated unwinding tables + "
@@ -325,7 +329,7 @@ def _run(ck, R, exe, quick, scratch):
             ck.unproved("C04_tempfile hypothesis `tempCfgNow.Sound`",
                         "the unwinding table generated from make_temp_file does not release what it acquired")
 
-    mods = pick_modules(ck, 25 if quick else 400, 20000 if quick else 65536)
+    mods = pick_modules(ck, 30 if quick else 400, 32000 if quick else 65536)
     ck.note("modules", [os.path.basename(m) for m in mods][:60])
     jobs = []
 
@@ -339,15 +343,15 @@ def _run(ck, R, exe, quick, scratch):
         bn = os.path.basename(m)
         size = os.path.getsize(m)
         # A. xmp_start_player, every allocation index; fresh (LOADED) and while PLAYING
-        add("start:" + bn, ["faults", "start", ENTRIES[(i + seed) % 4], m, 0, -1, 1], kpos=5)
+        add("start:" + bn, ["faults", "start", ENTRIES[(i + seed) % 4], m, 0, -1, 1], kpos=4)
         if i % 3 == (seed % 3) or not quick:
-            add("restart:" + bn, ["faults", "restart", "mem", m, 0, -1, 1], kpos=5)
-        # B. load, every allocation index: quick = one entry point per module (rotating), thorough = all four
-        ents = [ENTRIES[(i + seed + 1) % 4]] if quick else ENTRIES
+            add("restart:" + bn, ["faults", "restart", "mem", m, 0, -1, 1], kpos=4)
+        # B. load, every allocation index: quick = two entry points per module (rotating), thorough = all four
+        ents = [ENTRIES[(i + seed + 1) % 4], ENTRIES[(i + seed + 3) % 4]] if quick else ENTRIES
         for e in ents:
-            add("load:%s:%s" % (e, bn), ["faults", "load", e, m, 0, -1, 1], kpos=5)
+            add("load:%s:%s" % (e, bn), ["faults", "load", e, m, 0, -1, 1], kpos=4)
         # C. test
-        add("test:%s" % bn, ["faults", "test", ENTRIES[(i + seed + 2) % 4], m, 0, -1, 1], kpos=5)
+        add("test:%s" % bn, ["faults", "test", ENTRIES[(i + seed + 2) % 4], m, 0, -1, 1], kpos=4)
         # D. truncation length classes
         lens = sorted({0, 1, 2, 99, 100, 101, 1023, 1024, 1025, size // 2, size - 1, size} |
                       {ck.rng.randrange(0, size) for _ in range(3 if quick else 12)})
@@ -361,7 +365,7 @@ def _run(ck, R, exe, quick, scratch):
     if not quick:
         big = [f for f in vlib.corpus_files() if 65536 < os.path.getsize(f) <= 1500000 and not f.endswith((".data", ".txt"))]
         for i, m in enumerate(big):
-            add("load-big:%s" % os.path.basename(m), ["faults", "load", ENTRIES[(i + seed) % 4], m, 0, -1, -120, 2], kpos=5, timeout=1500)
+            add("load-big:%s" % os.path.basename(m), ["faults", "load", ENTRIES[(i + seed) % 4], m, 0, -1, -120, 2], kpos=4, timeout=1500)
         ck.note("big_modules", len(big))
     # F. stream ownership scenarios
     garbage = os.path.join(scratch, "garbage.bin")
@@ -383,7 +387,7 @@ def _run(ck, R, exe, quick, scratch):
                     make_helper_dir(hd, mode, good[0])
                 return base_env(d, path_prefix=hd)
             for op in ("load", "test"):
-                add("helper:%s:%s:%s" % (os.path.basename(arch), mode, op), ["faults", op, "path", arch, 0, -1, 1], kpos=5,
+                add("helper:%s:%s:%s" % (os.path.basename(arch), mode, op), ["faults", op, "path", arch, 0, -1, 1], kpos=4,
                     env=env_fn, malformed=True)
         # temp directory missing / not writable: mkstemp fails for real
         add("tmpdir-missing:" + os.path.basename(arch), ["faults", "load", "path", arch, -1, 0, 1],
@@ -395,8 +399,8 @@ def _run(ck, R, exe, quick, scratch):
     # H. smix
     wav = os.path.join(scratch, "s.wav")
     make_wav(wav)
-    add("smixstart", ["faults", "smixstart", "mem", good[0], 0, -1, 1], kpos=5)
-    add("smixload", ["faults", "smixload", "mem", good[0], 0, -1, 1, 6, wav], kpos=5)
+    add("smixstart", ["faults", "smixstart", "mem", good[0], 0, -1, 1], kpos=4)
+    add("smixload", ["faults", "smixload", "mem", good[0], 0, -1, 1, 6, wav], kpos=4)
     add("smixload-trunc", ["faults", "smixload", "mem", good[0], -1, 0, 1, 6, garbage], malformed=True)
     add("smix-restart", ["smix"])
 
